@@ -1,5 +1,6 @@
 import Peppi.Lemmas.Gecko
 import Peppi.Lemmas.Longer
+import Peppi.Lemmas.C08
 /-! The Message Splitter is a generic container: a final block that names a *frame event* (Frame Start, Pre-Frame, Post-Frame,
     Item, Frame End) as its wrapped command hands the reassembled bytes to that event's handler.  One block (a payload of at
     most 512 bytes, zero-padded to 512) is handled exactly like the plain event with the same payload — the padding is extra
@@ -78,4 +79,63 @@ theorem parseEvent_wrapped (ps : ParseState) (c : Nat) (p pad rest : Bytes) (st'
   rw [hst, hraw, List.nil_append, hext]
 
 #print axioms parseEvent_wrapped
+
+/-- **a message of a kind the library does not know, carried by a final splitter block, is skipped**: nothing changes but the
+    splitter's accumulators (the reassembly buffer is emptied, the size total advanced), and 517 bytes are counted — per
+    block, not per reassembled byte -/
+theorem parseEvent_wrapped_unknown (ps : ParseState) (c : Nat) (data rest : Bytes) (actual : Nat)
+    (hc : c < 256) (hunk : isKnown c = false) (hd : data.length = 512) (ha : actual ≤ 512)
+    (hsz : sizeOfEv ps.st.sizes EV_SPLITTER = some 516) (hact : ps.st.splitActual + actual < 2 ^ 32) :
+    parseEvent ps (encEvent (EV_SPLITTER, splitPayloadC data actual true c) ++ rest) =
+      .ok ((c, { st := { ps.st with splitRaw := [], splitActual := ps.st.splitActual + actual }, bytesRead := ps.bytesRead + 516 + 1 }), rest) := by
+  have hl := splitPayloadC_length data actual true c hd
+  have hb : (UInt8.ofNat EV_SPLITTER).toNat = EV_SPLITTER := by decide
+  have hlt : ¬ (516 + rest.length < 516) := by omega
+  have ht : List.take 516 (splitPayloadC data actual true c ++ rest) = splitPayloadC data actual true c := List.take_left' hl
+  have hdp : List.drop 516 (splitPayloadC data actual true c ++ rest) = rest := List.drop_left' hl
+  simp only [parseEvent, encEvent, bind, Rd.u8, List.cons_append, hb, hsz, Rd.take, List.length_append, hl, hlt, ↓reduceIte,
+    ht, hdp, Rd.lift, handleSplitter_blockC ps.st data actual c hc hd ha hact, pure]
+  rw [handle_unknown _ c _ hunk]
+
+/-- a non-final block of any message is accumulated and nothing else changes -/
+theorem parseEvent_split_any (ps : ParseState) (c : Nat) (data rest : Bytes) (actual : Nat)
+    (hd : data.length = 512) (ha : actual ≤ 512)
+    (hsz : sizeOfEv ps.st.sizes EV_SPLITTER = some 516) (hact : ps.st.splitActual + actual < 2 ^ 32) :
+    ∃ st', parseEvent ps (encEvent (EV_SPLITTER, splitPayloadC data actual false c) ++ rest) =
+      .ok ((EV_SPLITTER, { st := st', bytesRead := ps.bytesRead + 516 + 1 }), rest) ∧
+      st' = { ps.st with splitRaw := ps.st.splitRaw ++ data, splitActual := ps.st.splitActual + actual } := by
+  have hl := splitPayloadC_length data actual false c hd
+  have hb : (UInt8.ofNat EV_SPLITTER).toNat = EV_SPLITTER := by decide
+  have hlt : ¬ (516 + rest.length < 516) := by omega
+  have ht : List.take 516 (splitPayloadC data actual false c ++ rest) = splitPayloadC data actual false c := List.take_left' hl
+  have hdp : List.drop 516 (splitPayloadC data actual false c ++ rest) = rest := List.drop_left' hl
+  have hs : handleSplitter (splitPayloadC data actual false c) ps.st =
+      .ok (none, { ps.st with splitRaw := ps.st.splitRaw ++ data, splitActual := ps.st.splitActual + actual }) := by
+    unfold handleSplitter
+    have h1 : ¬ (splitPayloadC data actual false c).length ≠ 516 := by simp [hl]
+    simp only [h1, ↓reduceIte]
+    have hdrop : (splitPayloadC data actual false c).drop 512 = toBE 2 actual ++ [UInt8.ofNat c, if false then 1 else 0] := by
+      unfold splitPayloadC; rw [← hd]; exact List.drop_left' rfl
+    have htake : (splitPayloadC data actual false c).take 512 = data := by
+      unfold splitPayloadC; rw [← hd]; exact List.take_left' rfl
+    have hactual : fromBE (((splitPayloadC data actual false c).drop 512).take 2) = actual := by
+      rw [hdrop, List.take_left' (toBE_length 2 actual)]
+      exact fromBE_toBE 2 actual (by omega)
+    have hsplit : splitPayloadC data actual false c = (data ++ toBE 2 actual) ++ [UInt8.ofNat c, if false then 1 else 0] := by
+      simp [splitPayloadC]
+    have h515 : (splitPayloadC data actual false c).getD 515 0 = 0 := by
+      rw [hsplit, List.getD_eq_getElem?_getD, List.getElem?_append_right (by simp [toBE_length, hd])]
+      simp [toBE_length, hd]
+    rw [hactual, h515, htake]
+    have h2 : ¬ actual > 512 := by omega
+    have h3 : ¬ ps.st.splitActual + actual ≥ 2 ^ 32 := by omega
+    simp only [h2, h3, ↓reduceIte]
+    simp
+  refine ⟨_, ?_, rfl⟩
+  simp only [parseEvent, encEvent, bind, Rd.u8, List.cons_append, hb, hsz, Rd.take, List.length_append, hl, hlt, ↓reduceIte,
+    ht, hdp, Rd.lift, hs, pure]
+  simp [handleEvent, EV_SPLITTER, EV_PAYLOADS]
+
+#print axioms parseEvent_wrapped_unknown
+#print axioms parseEvent_split_any
 end Peppi
